@@ -103,6 +103,142 @@ def lean_str(s):
     return '"' + s.replace("\\", "\\\\").replace('"', '\\"') + '"'
 
 
+OPS = {ast.Lt: "<", ast.LtE: "<=", ast.Gt: ">", ast.GtE: ">=", ast.Eq: "==", ast.NotEq: "!=", ast.Is: "is",
+       ast.IsNot: "is not", ast.In: "in", ast.NotIn: "not in"}
+
+# decision fragments whose comparison operators are extracted (file, class or None, function)
+FRAGMENTS = [
+    ("pams/order.py", "Order", "_gt_lt"),
+    ("pams/order.py", "Order", "is_expired"),
+    ("pams/order_book.py", "OrderBook", "_check_expired_orders"),
+    ("pams/market.py", "Market", "remain_executable_orders"),
+    ("pams/market.py", "Market", "_execution"),
+    ("pams/market.py", "Market", "_update_market_price"),
+    ("pams/market.py", "Market", "_add_order"),
+    ("pams/runners/sequential.py", "SequentialRunner", "_collect_orders_from_normal_agents"),
+    ("pams/runners/sequential.py", "SequentialRunner", "_handle_orders"),
+    ("pams/events/price_limit_rule.py", "PriceLimitRule", "get_limited_price"),
+    ("pams/events/trading_halt_rule.py", "TradingHaltRule", "hooked_after_execution"),
+    ("pams/events/trading_halt_rule.py", "TradingHaltRule", "hooked_before_step_for_market"),
+    ("pams/events/order_mistake_shock.py", "OrderMistakeShock", "hooked_before_order"),
+    ("pams/agents/arbitrage_agent.py", "ArbitrageAgent", "_submit_orders"),
+    ("pams/agents/fcn_agent.py", "FCNAgent", "submit_orders_by_market"),
+    ("pams/utils/json_extends.py", None, "json_extends"),
+]
+
+
+def find_func(tree, cls, fn):
+    scope = tree.body
+    if cls is not None:
+        for n in tree.body:
+            if isinstance(n, ast.ClassDef) and n.name == cls:
+                scope = n.body
+                break
+        else:
+            return None
+    for n in scope:
+        if isinstance(n, (ast.FunctionDef, ast.AsyncFunctionDef)) and n.name == fn:
+            return n
+    return None
+
+
+def compare_ops(func):
+    """operators of every comparison in source order (identifier names are deliberately ignored so
+    that renaming a variable is not noticed, flipping or weakening an operator is)"""
+    out = []
+    for node in sorted((n for n in ast.walk(func) if isinstance(n, ast.Compare)),
+                       key=lambda n: (n.lineno, n.col_offset)):
+        out.append(" ".join(OPS.get(type(o), type(o).__name__) for o in node.ops))
+    return out
+
+
+def gt_lt_pairs(func):
+    """for every `X if gt else Y` in `_gt_lt`: (what is returned for __gt__, for __lt__), reduced to the
+    comparison operator or the constant"""
+    def red(e):
+        if isinstance(e, ast.Compare):
+            return " ".join(OPS.get(type(o), "?") for o in e.ops)
+        if isinstance(e, ast.Constant):
+            return str(e.value)
+        return "expr"
+    out = []
+    for node in sorted((n for n in ast.walk(func) if isinstance(n, ast.IfExp)), key=lambda n: (n.lineno, n.col_offset)):
+        if isinstance(node.test, ast.Name) and node.test.id == "gt":
+            out.append((red(node.body), red(node.orelse)))
+    return out
+
+
+def session_key_table(func):
+    """settings key -> attribute assigned from it in Session.setup"""
+    out = []
+    for node in ast.walk(func):
+        if isinstance(node, ast.Assign) and len(node.targets) == 1:
+            t = node.targets[0]
+            if isinstance(t, ast.Attribute) and isinstance(t.value, ast.Name) and t.value.id == "self":
+                for sub in ast.walk(node.value):
+                    if isinstance(sub, ast.Subscript) and isinstance(sub.value, ast.Name) and sub.value.id == "settings" \
+                            and isinstance(sub.slice, ast.Constant):
+                        out.append((sub.slice.value, t.attr, node.lineno))
+    return [(k, a) for k, a, _ in sorted(out, key=lambda x: x[2])]
+
+
+def trigger_time_sources(tree):
+    out = []
+    for n in tree.body:
+        if isinstance(n, ast.ClassDef) and n.name == "Simulator":
+            for f in n.body:
+                if isinstance(f, ast.FunctionDef) and f.name.startswith("_trigger_event_"):
+                    for st in f.body:
+                        if isinstance(st, ast.AnnAssign) and isinstance(st.target, ast.Name) and st.target.id == "time":
+                            out.append((f.name, ast.unparse(st.value)))
+    return out
+
+
+def regenerate_fragments(status):
+    trees = {}
+
+    def tree_of(rel):
+        if rel not in trees:
+            trees[rel] = ast.parse(open(os.path.join(REPO, rel)).read())
+        return trees[rel]
+    frag = []
+    for rel, cls, fn in FRAGMENTS:
+        try:
+            f = find_func(tree_of(rel), cls, fn)
+        except Exception:
+            f = None
+        name = (cls + "." if cls else "") + fn
+        if f is None:
+            frag.append((name, ["<extraction unavailable>"]))
+            status["fragment:" + name] = "unavailable"
+        else:
+            frag.append((name, compare_ops(f)))
+    try:
+        pairs = gt_lt_pairs(find_func(tree_of("pams/order.py"), "Order", "_gt_lt"))
+    except Exception:
+        pairs = []
+    try:
+        keys = session_key_table(find_func(tree_of("pams/session.py"), "Session", "setup"))
+    except Exception:
+        keys = []
+    try:
+        times = trigger_time_sources(tree_of("pams/simulator.py"))
+    except Exception:
+        times = []
+    text = "-- generated by harness/extract.py from /repo/pams — do not edit\nnamespace PamsGen\n\n"
+    text += "/-- comparison operators, in source order, of the decision fragments the models transcribe -/\n"
+    text += "def compareOps : List (String × List String) :=\n  [" + ",\n   ".join(
+        "(%s, [%s])" % (lean_str(n), ", ".join(lean_str(o) for o in ops)) for n, ops in frag) + "]\n\n"
+    text += "/-- `Order._gt_lt`: for each `X if gt else Y`, (result for `__gt__`, result for `__lt__`) -/\n"
+    text += "def gtLtPairs : List (String × String) :=\n  [" + ", ".join("(%s, %s)" % (lean_str(a), lean_str(b)) for a, b in pairs) + "]\n\n"
+    text += "/-- `Session.setup`: settings key ↦ attribute it is assigned to -/\n"
+    text += "def sessionKeys : List (String × String) :=\n  [" + ",\n   ".join("(%s, %s)" % (lean_str(a), lean_str(b)) for a, b in keys) + "]\n\n"
+    text += "/-- `Simulator._trigger_event_*`: the expression that gives the occurrence's time -/\n"
+    text += "def triggerTimes : List (String × String) :=\n  [" + ",\n   ".join("(%s, %s)" % (lean_str(a), lean_str(b)) for a, b in times) + "]\n\nend PamsGen\n"
+    changed = write_if_changed(os.path.join(LEAN_DIR, "PamsGen", "Fragments.lean"), text)
+    status["Fragments"] = {"functions": len(frag), "rewritten": changed}
+
+
 def regenerate():
     status = {}
     sites, seeds = [], []
@@ -133,6 +269,7 @@ def regenerate():
         "(%s, %s, %s)" % (lean_str(a), lean_str(b), lean_str(c)) for a, b, c in seeds) + "]\n\nend PamsGen\n"
     changed = write_if_changed(os.path.join(LEAN_DIR, "PamsGen", "AmbientSites.lean"), text)
     status["AmbientSites"] = {"sites": len(sites), "seed_sites": len(seeds), "rewritten": changed}
+    regenerate_fragments(status)
     stamp = os.path.join(LEAN_DIR, "PamsGen", "Stamp.lean")
     write_if_changed(stamp, "-- generated by harness/extract.py\nnamespace PamsGen\ndef generated : Bool := true\nend PamsGen\n")
     return status
